@@ -5,6 +5,7 @@ import (
 	"go/ast"
 	"go/token"
 	"go/types"
+	"sort"
 	"strings"
 )
 
@@ -133,6 +134,8 @@ func classifyStore(w *World, s *Store) (ok bool, form string) {
 func runC13(w *World, r *Report) {
 	r.Rule("observers", "methods that formatting calls implicitly (String, Error, …) leave the value unchanged", 1)
 	observerRule(w, r, "observers", "openflow13", "common", "util")
+	r.Rule("order", "no size function or encoder ranges over a map while producing output, and none defers a store into its receiver", 1)
+	encoderOrderRule(w, r)
 	r.Rule("stateless", "sizing and encoding depend on no package-level state that a call can change: no pooled scratch, no cache, no shared table entry handed out", 8)
 	importStateless(w, r, "stateless")
 	r.Rule("idempotent", "every store of Len/MarshalBinary/Read into receiver-reachable memory has an idempotent form", 15)
@@ -454,4 +457,118 @@ func condPaths(c string) map[string]bool {
 		i = j
 	}
 	return out
+}
+
+// encoderOrderRule: two Go constructs make an encoding depend on something other than the value.
+//
+//	maporder — ranging over a map while producing output: the iteration order changes from call to call,
+//	  so two encodings of one value differ whenever the order of the emitted parts matters;
+//	deferred-store — a deferred function that stores into the receiver runs when the encoder returns, after
+//	  the bytes were produced: the first encoding carries the old state, later ones the new.
+//
+// Checked in every size function and encoder of a kind and in the module functions they call directly.
+func encoderOrderRule(w *World, r *Report) {
+	seen := map[*FuncInfo]bool{}
+	var roots []*FuncInfo
+	for _, k := range w.KindsL {
+		for _, f := range []*types.Func{k.Len, k.Marshal} {
+			if f == nil {
+				continue
+			}
+			if fi := w.FuncOf(f); fi != nil && fi.Decl.Body != nil && !seen[fi] {
+				seen[fi] = true
+				roots = append(roots, fi)
+			}
+		}
+	}
+	// one level of helpers
+	for _, fi := range append([]*FuncInfo(nil), roots...) {
+		ast.Inspect(fi.Decl.Body, func(n ast.Node) bool {
+			if c, ok := n.(*ast.CallExpr); ok {
+				if fn := w.calleeOf(fi.Pkg.TypesInfo, c); fn != nil {
+					if g := w.FuncOf(fn.Origin()); g != nil && g.Decl.Body != nil && !seen[g] && g.Decl.Name.Name != "Len" && g.Decl.Name.Name != "MarshalBinary" {
+						seen[g] = true
+						roots = append(roots, g)
+					}
+				}
+			}
+			return true
+		})
+	}
+	sort.Slice(roots, func(i, j int) bool { return roots[i].Key < roots[j].Key })
+	nMaps, nDefers := 0, 0
+	for _, fi := range roots {
+		info := fi.Pkg.TypesInfo
+		recv := recvObj(fi)
+		ast.Inspect(fi.Decl.Body, func(n ast.Node) bool {
+			switch x := n.(type) {
+			case *ast.RangeStmt:
+				if _, isMap := info.TypeOf(x.X).Underlying().(*types.Map); !isMap {
+					return true
+				}
+				nMaps++
+				produces := false
+				ast.Inspect(x.Body, func(m ast.Node) bool {
+					switch y := m.(type) {
+					case *ast.CallExpr:
+						if id, ok := unparen(y.Fun).(*ast.Ident); ok && (id.Name == "append" || id.Name == "copy") {
+							produces = true
+						}
+						if fn := w.calleeOf(info, y); fn != nil && (strings.HasPrefix(fn.Name(), "Put") || strings.HasPrefix(fn.Name(), "Write") || fn.Name() == "MarshalBinary") {
+							produces = true
+						}
+					case *ast.AssignStmt:
+						for _, l := range y.Lhs {
+							if _, ok := unparen(l).(*ast.IndexExpr); ok {
+								produces = true
+							}
+						}
+					}
+					return true
+				})
+				if produces {
+					r.Fail(VViolation, "order", fi.Key, "maporder:"+types.ExprString(x.X), w.Pos(x.Pos()), "the function ranges over the map "+types.ExprString(x.X)+" while it builds its output: Go's map iteration order differs from call to call, so the same value is sized or encoded with its parts in a different order each time")
+				} else {
+					r.OK("order", fi.Key, "maporder:"+types.ExprString(x.X), w.Pos(x.Pos()), "a map is ranged over, but the loop produces no output", true)
+				}
+			case *ast.DeferStmt:
+				nDefers++
+				stores := ""
+				ast.Inspect(x.Call, func(m ast.Node) bool {
+					if as, ok := m.(*ast.AssignStmt); ok {
+						for _, l := range as.Lhs {
+							root := l
+							for {
+								switch t := unparen(root).(type) {
+								case *ast.SelectorExpr:
+									root = t.X
+									continue
+								case *ast.IndexExpr:
+									root = t.X
+									continue
+								case *ast.StarExpr:
+									root = t.X
+									continue
+								}
+								break
+							}
+							if id, ok := unparen(root).(*ast.Ident); ok && recv != nil && info.Uses[id] == recv {
+								if _, isSel := unparen(l).(*ast.SelectorExpr); isSel {
+									stores = types.ExprString(l)
+								}
+							}
+						}
+					}
+					return true
+				})
+				if stores != "" {
+					r.Fail(VViolation, "order", fi.Key, "deferred-store:"+stores, w.Pos(x.Pos()), "a deferred function stores into "+stores+": it runs when the encoder returns, after the bytes were produced, so the first encoding carries the old value and every later one the new")
+				} else {
+					r.OK("order", fi.Key, fmt.Sprintf("defer@%d", w.Fset.Position(x.Pos()).Line), w.Pos(x.Pos()), "the deferred call does not store into the receiver", true)
+				}
+			}
+			return true
+		})
+	}
+	r.OK("order", "inventory", "", "-", fmt.Sprintf("%d size functions, encoders and their direct helpers examined: %d map ranges, %d defers", len(roots), nMaps, nDefers), true)
 }
